@@ -22,7 +22,7 @@ print(sid, 'demo-without ok' if ok_wo else 'DEMO-WITHOUT FAILS', '| demo-with fa
 if ok_wo and ok_wi and ok_suite:
     d = os.path.join(V, 'seeded', sid); os.makedirs(d, exist_ok=True)
     shutil.copy(patch, os.path.join(d, 'patch.diff')); shutil.copy(demo, os.path.join(d, 'demo.rs'))
-    json.dump({'id': sid, 'property': prop, 'needs_to_manifest': needs, 'origin': 'independent sub-agent given only the property text (round 4)', 'confirmed': txt,
+    json.dump({'id': sid, 'property': prop, 'needs_to_manifest': needs, 'origin': 'independent sub-agent given only the property text (round ' + os.environ.get('SEED_ROUND', '5') + ')', 'confirmed': txt,
                'confirm_cmd': 'tools/confirm_seed.sh (scratch worktree: demo passes without the change, fails with it; cargo test --workspace: 82 pass + the 3 baseline failures)'}, open(os.path.join(d, 'meta.json'), 'w'), indent=1)
     print('registered', d)
 PY
